@@ -344,3 +344,140 @@ Proof. reflexivity. Qed.
 
 Lemma in_concat_incl {A} (l : list A) ll : In l ll -> incl l (concat ll).
 Proof. intros H x Hx. apply in_concat. exists l. split; assumption. Qed.
+
+(* ------------------------------------------------------------------ *)
+(* permutations of columns                                             *)
+
+Lemma permute_cons {A} j p (l : list A) : permute (j :: p) l = olist (nth_error l j) ++ permute p l.
+Proof. unfold permute, olist. simpl. destruct (nth_error l j); reflexivity. Qed.
+
+Lemma permute_seq_gen {A} (pre l : list A) :
+  permute (seq (length pre) (length l)) (pre ++ l) = l.
+Proof.
+  revert pre; induction l as [|x t IH]; intros pre; [reflexivity|].
+  cbn [length seq]. rewrite permute_cons.
+  rewrite nth_error_app2 by lia. rewrite Nat.sub_diag. simpl. f_equal.
+  specialize (IH (pre ++ [x])). rewrite app_length in IH. simpl in IH.
+  rewrite Nat.add_1_r, <- app_assoc in IH. simpl in IH. exact IH.
+Qed.
+
+Lemma permute_seq {A} (l : list A) : permute (seq 0 (length l)) l = l.
+Proof. exact (permute_seq_gen [] l). Qed.
+
+Lemma permute_perm {A} p (l : list A) :
+  Permutation p (seq 0 (length l)) -> Permutation (permute p l) l.
+Proof.
+  intros H. rewrite <- (permute_seq l) at 2. unfold permute. apply Permutation_flat_map. exact H.
+Qed.
+
+Lemma permute_map {A B} (f : A -> B) p l : permute p (map f l) = map f (permute p l).
+Proof.
+  induction p as [|j t IH]; [reflexivity|]. rewrite !permute_cons, map_app, IH, nth_error_map.
+  destruct (nth_error l j); reflexivity.
+Qed.
+
+Lemma nth_error_combine {A B} (a : list A) (b : list B) j :
+  nth_error (combine a b) j =
+  match nth_error a j, nth_error b j with Some x, Some y => Some (x, y) | _, _ => None end.
+Proof.
+  revert b j; induction a as [|x t IH]; intros b j.
+  - simpl. destruct j; reflexivity.
+  - destruct b as [|y r]; simpl.
+    + destruct j; simpl; [reflexivity|]. destruct (nth_error t j); reflexivity.
+    + destruct j; simpl; [reflexivity | apply IH].
+Qed.
+
+Lemma combine_permute {A B} p (a : list A) (b : list B) :
+  length a = length b -> combine (permute p a) (permute p b) = permute p (combine a b).
+Proof.
+  intros Hl. induction p as [|j t IH]; [reflexivity|].
+  rewrite !permute_cons, nth_error_combine.
+  destruct (nth_error a j) eqn:Ea; destruct (nth_error b j) eqn:Eb; simpl.
+  - rewrite IH. reflexivity.
+  - apply nth_error_None in Eb. assert (nth_error a j <> None) by congruence.
+    apply nth_error_Some in H. lia.
+  - apply nth_error_None in Ea. assert (nth_error b j <> None) by congruence.
+    apply nth_error_Some in H. lia.
+  - exact IH.
+Qed.
+
+Lemma map_fst_combine {A B} (a : list A) (b : list B) : length a = length b -> map fst (combine a b) = a.
+Proof.
+  revert b; induction a as [|x t IH]; intros b Hl; [reflexivity|].
+  destruct b; simpl in *; [discriminate|]. f_equal. apply IH. lia.
+Qed.
+
+Lemma zassoc_perm {A} (l l' : list (Z * A)) g :
+  NoDup (map fst l) -> Permutation l l' -> zassoc g l = zassoc g l'.
+Proof.
+  intros Hn Hp.
+  assert (Hn' : NoDup (map fst l')) by (eapply Permutation_NoDup; [apply Permutation_map; exact Hp | exact Hn]).
+  destruct (zassoc g l) as [v|] eqn:E.
+  - symmetry. apply zassoc_nodup_in; [assumption|]. eapply Permutation_in; [exact Hp|]. apply zassoc_in. assumption.
+  - symmetry. apply zassoc_none. apply zassoc_none in E. intros Hin. apply E.
+    eapply Permutation_in; [apply Permutation_sym; apply Permutation_map; exact Hp | exact Hin].
+Qed.
+
+Lemma lookup_permute {A} p genes (row : list A) g :
+  NoDup genes -> length row = length genes -> Permutation p (seq 0 (length genes)) ->
+  lookup (permute p genes) (permute p row) g = lookup genes row g.
+Proof.
+  intros Hn Hl Hp. rewrite !lookup_zassoc, combine_permute by lia.
+  symmetry. apply zassoc_perm.
+  - rewrite map_fst_combine by lia. assumption.
+  - apply Permutation_sym. apply permute_perm. rewrite combine_length, Hl, Nat.min_id. assumption.
+Qed.
+
+Lemma rsum_perm r1 r2 : Permutation r1 r2 -> rsum r1 = rsum r2.
+Proof. induction 1; simpl; lia. Qed.
+
+Lemma existsb_perm {A} (f : A -> bool) l l' : Permutation l l' -> existsb f l = existsb f l'.
+Proof.
+  induction 1; simpl; try congruence.
+  destruct (f x), (f y); reflexivity.
+Qed.
+
+Lemma zmem_perm g l l' : Permutation l l' -> zmem g l = zmem g l'.
+Proof. apply existsb_perm. Qed.
+
+(* dropping columns by name *)
+Lemma zassoc_filter {A} (keep : Z -> bool) (l : list (Z * A)) g :
+  keep g = true -> zassoc g (filter (fun gx => keep (fst gx)) l) = zassoc g l.
+Proof.
+  intros Hk. induction l as [|[k v] t IH]; [reflexivity|]. simpl.
+  destruct (keep k) eqn:Ek; simpl.
+  - rewrite IH. reflexivity.
+  - destruct (g =? k) eqn:E; [apply Z.eqb_eq in E; congruence | exact IH].
+Qed.
+
+Lemma combine_fst_snd {A B} (l : list (A * B)) : combine (map fst l) (map snd l) = l.
+Proof. induction l as [|[a b] t IH]; simpl; congruence. Qed.
+
+Lemma map_fst_filter {A} (keep : Z -> bool) (l : list (Z * A)) :
+  map fst (filter (fun gx => keep (fst gx)) l) = filter keep (map fst l).
+Proof.
+  induction l as [|[k v] t IH]; [reflexivity|]. simpl. destruct (keep k); simpl; congruence.
+Qed.
+
+Lemma drop_cols_combine {A} keep genes (row : list A) :
+  length row = length genes ->
+  combine (filter keep genes) (drop_cols keep genes row) = filter (fun gx => keep (fst gx)) (combine genes row).
+Proof.
+  intros Hl. unfold drop_cols.
+  rewrite <- (map_fst_combine genes row) at 1 by lia.
+  rewrite <- map_fst_filter. apply combine_fst_snd.
+Qed.
+
+Lemma drop_cols_length {A} keep genes (row : list A) :
+  length row = length genes -> length (drop_cols keep genes row) = length (filter keep genes).
+Proof.
+  intros Hl. unfold drop_cols. rewrite map_length.
+  rewrite <- (map_length fst), map_fst_filter, map_fst_combine by lia. reflexivity.
+Qed.
+
+Lemma lookup_drop {A} keep genes (row : list A) g :
+  length row = length genes -> keep g = true ->
+  lookup (filter keep genes) (drop_cols keep genes row) g = lookup genes row g.
+Proof.
+  intros Hl Hk. rewrite !lookup_zassoc, drop_cols_combine by assumption. apply zassoc_filter. assumption.
+Qed.
